@@ -45,3 +45,30 @@ Proof.
   assert (incl (x :: a) b) as Hincl' by (intros z [<-|Hz]; auto).
   pose proof (NoDup_incl_length Hnd' Hincl') as H. cbn in H. lia.
 Qed.
+
+(* mapM succeeds iff every element succeeds, elementwise *)
+Lemma mapM_Ok {A B} (f : A -> res B) l ys :
+  mapM f l = Ok ys -> Forall2 (fun x y => f x = Ok y) l ys.
+Proof.
+  revert ys. induction l as [|x t IH]; cbn [mapM]; intros ys H.
+  - injection H as <-. constructor.
+  - destruct (f x) as [y| | |] eqn:E; cbn [bind] in H; try discriminate.
+    destruct (mapM f t) as [ys'| | |] eqn:E2; cbn [bind] in H; try discriminate.
+    injection H as <-. constructor; [exact E|apply IH; reflexivity].
+Qed.
+
+Lemma Forall2_In_l {A B} (R : A -> B -> Prop) l ys x :
+  Forall2 R l ys -> In x l -> exists y, In y ys /\ R x y.
+Proof.
+  induction 1 as [|a b l' ys' Hab H IH]; intros Hin; [destruct Hin|].
+  destruct Hin as [<-|Hin]; [exists b; split; [left; reflexivity|exact Hab]|].
+  destruct (IH Hin) as [y [Hy HR]]. exists y. split; [right; exact Hy|exact HR].
+Qed.
+
+Lemma Forall2_In_r {A B} (R : A -> B -> Prop) l ys y :
+  Forall2 R l ys -> In y ys -> exists x, In x l /\ R x y.
+Proof.
+  induction 1 as [|a b l' ys' Hab H IH]; intros Hin; [destruct Hin|].
+  destruct Hin as [<-|Hin]; [exists a; split; [left; reflexivity|exact Hab]|].
+  destruct (IH Hin) as [x [Hx HR]]. exists x. split; [right; exact Hx|exact HR].
+Qed.
